@@ -34,7 +34,9 @@ NOT_LEGALITY = ("radius", "Exact Value")
 FLOATS = ["flt", "half", "dec", "third", "big"]
 CLAUSES = ["inDie", "ratio", "area", "attached", "withinExtent", "sideOrder", "intraDisjoint", "interDisjoint",
            "hardCongruent", "fixedInPlace"]
-UNIVERSES = {"quick": ["quick", "quick_multi"], "thorough": ["thorough", "thorough_multi", "thorough_r3"]}
+EXTRA = ["quick_long", "quick_wide", "quick_tall"]   # unequal same-side branches; very elongated dies (both orientations)
+UNIVERSES = {"quick": ["quick", "quick_multi"] + EXTRA, "thorough": ["thorough", "thorough_multi", "thorough_r3"] + EXTRA}
+NO_BRANCHES = ("quick_wide", "quick_tall")
 LOC2ROLE = {"TRUNK": "T", "NORTH": "N", "SOUTH": "S", "EAST": "E", "WEST": "W"}
 
 
@@ -53,6 +55,13 @@ def variants_for(k: int, w: dict, nmods: int, tier: str) -> list[list[str]]:
     embeddings rotate with the case number; `rev` lists the branches in reverse with the trunk second (see listing)."""
     fl = [e for e in FLOATS if usable(e, w, nmods)]
     out = [["int", "fwd" if k % 2 == 0 else "rev"]]
+    if max(w["dw"], w["dh"]) >= 10 * min(w["dw"], w["dh"]) and nmods >= 2:
+        # very elongated die: the smoothing tolerance 0.01*min(W,H)/n is far below 0.01*max(W,H)/n; the small steps are
+        # the ones for which a clear lattice overlap lies between the two, so they are always used here
+        for e in ("dec", "third", "half"):
+            if e in fl:
+                out.append([e, "rev" if len(out) % 2 else "fwd"])
+        return out
     n = 1 if tier == "quick" else 2
     for j in range(n):
         e = fl[(k + j) % len(fl)]
@@ -304,13 +313,22 @@ def random_case(rng: random.Random) -> dict | None:
     """A larger legal floorplan built by construction (its well-formedness is re-checked by TLC: NetOK) and a
     set of random single edits of it (classified by TLC; those outside the quantifier are not judged)."""
     dw, dh = rng.randint(12, 30), rng.randint(12, 30)
+    x0 = y0 = 0
+    xw, yw = dw, dh
+    if rng.random() < 0.25:
+        # a very elongated die (aspect 10:1 .. 40:1, both orientations); the modules are placed in a short window of it
+        short = rng.randint(8, 10)
+        long_ = short * rng.randint(10, 40)
+        dw, dh = (long_, short) if rng.random() < 0.5 else (short, long_)
+        xw, yw = min(dw, 14), min(dh, 14)
+        x0, y0 = rng.randint(0, dw - xw), rng.randint(0, dh - yw)
     rp, rq = rng.choice([(2, 1), (3, 1), (3, 2), (5, 2)])
     nm = rng.randint(2, 4)
     net, placed = [], []
     for _ in range(nm):
         for _try in range(60):
-            tw, th = rng.randint(2, 9), rng.randint(2, 9)
-            x, y = rng.randint(0, dw - tw), rng.randint(0, dh - th)
+            tw, th = rng.randint(2, min(9, xw)), rng.randint(2, min(9, yw))
+            x, y = x0 + rng.randint(0, xw - tw), y0 + rng.randint(0, yw - th)
             t = [x, y, x + tw, y + th]
             if _ar_ok(t, rp, rq) and not any(_ov(t, r) for r in placed):
                 break
@@ -413,7 +431,8 @@ def run(ctx: Ctx) -> int:
 
     # 1. design level: the specified system is exact, the construction is legal, perturbations are single-clause
     for u in UNIVERSES[tier]:
-        tlc.model_check(ctx, SPEC, f"{SPEC}_mc_{u}", vacuity_ignore=("EmitNet", "Wild"))
+        tlc.model_check(ctx, SPEC, f"{SPEC}_mc_{u}",
+                        vacuity_ignore=("EmitNet", "Wild") + (("AttachAny",) if u in NO_BRANCHES else ()))
     if tier == "thorough":
         # Perturb/Wild from moved configurations as well, and the multi-violation neighbours
         tlc.model_check(ctx, SPEC, f"{SPEC}_mc_chain", vacuity_ignore=("EmitNet",))
@@ -464,7 +483,8 @@ def run(ctx: Ctx) -> int:
     ]
     return ctx.finish(
         "model_checking",
-        "TLC enumerates every netlist of the bounded universes (1-3 modules, trunk + <= 2 branches, soft/hard/fixed) and, per netlist, "
+        "TLC enumerates every netlist of the bounded universes (1-3 modules, trunk + <= 2 branches, soft/hard/fixed; dies 8x8 .. 10x10, "
+        "400x4 and 4x400) and, per netlist, "
         "the original configuration and every single-edit neighbour (module translation, branch slide, trunk slide, edge move, trunk-edge drag, "
         "branch swap) that is legal or falsifies exactly one clause; evaluations = (netlist, embedding, configuration) triples on the "
         "real model; distinct non-trivial = distinct (die, netlist, configuration) judged by TLC with configuration != original",
